@@ -153,10 +153,12 @@ def h_text(d, lang, fmt, shape, focus, n, labels=0, variant=None):
     from depccg.lang import set_global_language_to
     set_global_language_to(lang)
     res, flat = results_for(d, lang, shape, focus, n, labels)
+    restore = trees.freeze([t for _, t in flat])
     try:
         out = to_string(res, format=fmt)
     except Exception as e:
         return ('%s.render-raises:%s' % (fmt, type(e).__name__),)
+    restore()       # the oracle is the derivation handed to the printer
     recs = split_records(out, '# ID=' if fmt == 'conll' else 'ID=')
     if len(recs) != len(flat):
         return ('%s.record-count' % fmt, len(recs))
@@ -289,6 +291,7 @@ def h_json(d, lang, shape, focus, n, variant=None):
     set_global_language_to(lang)
     from engines.pysym.explore import ASCII
     res, flat = results_for(d, lang, shape, focus, n, alpha=ASCII)
+    restore = trees.freeze([t for _, t in flat])
     try:
         out = to_string(res, format='json')
         doc = D.dec_json(out)
@@ -296,6 +299,7 @@ def h_json(d, lang, shape, focus, n, variant=None):
         return ('json.undecodable', str(e))
     except Exception as e:
         return ('json.render-raises:' + type(e).__name__,)
+    restore()       # the oracle is the derivation handed to the printer
     if sorted(doc.keys()) != ['1', '2'] or len(doc['1']) != 2 or len(doc['2']) != 1:
         return ('json.numbering',)
     got = doc['1'] + doc['2']
@@ -339,11 +343,13 @@ def h_prolog(d, lang, shape, focus, n, variant=None):
     set_global_language_to(lang)
     labels = 0 if lang == 'en' else 0
     res, flat = results_for(d, lang, shape, focus, n, labels)
+    restore = trees.freeze([t for _, t in flat])
     # English conj/lp nodes add arguments that depend on the shape of the categories: use application/composition labels here
     try:
         out = to_string(res, format='prolog')
     except Exception as e:
         return ('prolog.render-raises:' + type(e).__name__,)
+    restore()       # the oracle is the derivation handed to the printer
     try:
         clauses = D.prolog_terms(out)
     except DecodeError as e:
@@ -417,6 +423,7 @@ def h_xml(d, shape, focus, n, variant=None):
     from depccg.lang import set_global_language_to
     set_global_language_to('en')
     res, flat = results_for(d, 'en', shape, focus, n)
+    restore = trees.freeze([t for _, t in flat])
     try:
         if env.SYMBOLIC:
             root = xml_of(res)
@@ -425,6 +432,7 @@ def h_xml(d, shape, focus, n, variant=None):
             root = etree.fromstring(to_string(res, format='xml').encode('utf-8'))
     except Exception as e:
         return ('xml.render-raises:' + type(e).__name__,)
+    restore()       # the oracle is the derivation handed to the printer
     ccgs = [c for c in root if c.tag == 'ccg']
     if root.tag != 'candc' or len(ccgs) != len(flat):
         return ('xml.record-count',)
@@ -465,6 +473,7 @@ def h_jigg(d, lang, shape, focus, n, variant=None):
     from depccg.lang import set_global_language_to
     set_global_language_to(lang)
     res, flat = results_for(d, lang, shape, focus, n)
+    restore = trees.freeze([t for _, t in flat])
     try:
         if env.SYMBOLIC:
             root = to_jigg_xml(res, use_symbol=(lang == 'ja'))
@@ -473,6 +482,7 @@ def h_jigg(d, lang, shape, focus, n, variant=None):
             root = etree.fromstring(to_string(res, format='jigg_xml').encode('utf-8'))
     except Exception as e:
         return ('jigg.render-raises:' + type(e).__name__,)
+    restore()       # the oracle is the derivation handed to the printer
     sents = root[0][0].xpath('sentence')
     if len(sents) != 2:
         return ('jigg.sentence-count',)
@@ -541,6 +551,7 @@ def h_html(d, lang, shape, focus, n, variant=None):
     from depccg.lang import set_global_language_to
     set_global_language_to(lang)
     res, flat = results_for(d, lang, shape, focus, n)
+    restore = trees.freeze([t for _, t in flat])
     try:
         out = to_string(res, format='html')
         ev = D.dec_html_events(out)
@@ -548,6 +559,7 @@ def h_html(d, lang, shape, focus, n, variant=None):
         return ('html.undecodable', str(e))
     except Exception as e:
         return ('html.render-raises:' + type(e).__name__,)
+    restore()       # the oracle is the derivation handed to the printer
     want = []
 
     def rec(t):
